@@ -13,6 +13,7 @@ SPEC = dict(
     theorems=[
         "SymVerif.C21.canon_ext", "SymVerif.C21.fromDict_canon",
         _U + "add_comm_obj", _U + "add_assoc_obj", _U + "sub_add_cancel_obj", _U + "neg_neg_obj", _U + "mul_comm_obj", _U + "mul_add_obj", _U + "pow_succ_obj", _U + "divides_mul_obj",
+        _Q + "add_comm_obj", _Q + "add_assoc_obj", _Q + "sub_add_cancel_obj", _Q + "neg_neg_obj", _Q + "mul_comm_obj", _Q + "mul_add_obj", _Q + "pow_succ_obj", _Q + "divides_mul_obj",
         _U + "add_spec", _U + "sub_spec", _U + "neg_spec", _U + "kronecker_spec", _U + "mul_spec",
         _U + "pow_spec", _U + "divides_spec", _U + "divides_zero", _U + "eval_spec", _U + "diff_spec",
         _U + "coeff_spec", _U + "degree_spec",
